@@ -58,6 +58,10 @@ POOL = [
     part("BYSETPOS", I(-1)), part("BYSETPOS", I(1), I(-1)), part("WKST", W("SU")), part("WKST", W("MO")),
     part("SKIP", ("s", tuple(L("FORWARD")))), part("RSCALE", ("s", tuple(L("GREGORIAN")))),
     part("X-CUSTOM", ("s", tuple(L("abc")))),
+    # values that compare or hash equal without being the same rule value; repeated values
+    part("BYMONTH", ("m", 5, 0), ("m", 5, 1)), part("BYMONTH", ("m", 4, 1), ("m", 4, 0), ("m", 12, 0)),
+    part("BYDAY", W("MO"), W("MO")), part("BYDAY", W("1MO"), W("MO"), W("+1MO")), part("BYHOUR", I(9), I(9)), part("BYMONTHDAY", I(1), I(-1), I(1)),
+    part("BYSETPOS", I(0)), part("COUNT", I(0)),
 ]
 
 
